@@ -29,6 +29,7 @@ COUNTS = {
     "pair": (800, 40000),
     "conc": (300, 6000),
     "cli": (250, 5000),
+    "bin": (1, 1),
 }
 
 def nontrivial_rule(suite):
@@ -40,6 +41,7 @@ def nontrivial_rule(suite):
         "wrecv": "distinct scripts in which the worker performed at least one receive and one send",
         "wrecv-long": "distinct scripts (each > 65 000 blocks)",
         "win": "distinct operation sequences with at least two operations",
+        "bin": "distinct invocations of the real binaries",
         "cli": "distinct client invocations that ended without a refusal",
         "conc": "distinct (client set, interleaving) pairs with at least two clients that both start",
         "pair": "distinct (configuration, file, fault schedule) triples with at least one fault",
@@ -83,7 +85,7 @@ PROPS = {
     "C06": {"suites": ["srv"], "monitor": True, "title": "access policy", "assumptions": ["Path::exists as modelled by the POSIX tree walk; loopback UDP"]},
     "C07": {"suites": ["wsend", "wrecv"], "monitor": True, "title": "termination", "assumptions": W_ASSUME},
     "C08": {"suites": ["wsend", "wrecv"], "monitor": True, "title": "window flow control", "assumptions": W_ASSUME},
-    "C09": {"suites": ["srv"], "monitor": True, "title": "option negotiation", "assumptions": ["loopback UDP; retransmission interval not measured in the quick tier"]},
+    "C09": {"suites": ["srv", "bin"], "monitor": True, "title": "option negotiation", "assumptions": ["loopback UDP; retransmission interval not measured in the quick tier"]},
     "C10": {"suites": ["codec-dec"], "monitor": True,
             "title": "decoder totality"},
     "C11": {"suites": ["codec-enc", "codec-dec"], "monitor": True,
@@ -92,11 +94,11 @@ PROPS = {
             "assumptions": ["kernel threads, mpsc channels and connected UDP sockets behave as the rules of Model/System.v say (sampled by real schedules, not proved)"]},
     "C13": {"suites": ["wrecv", "srv"], "monitor": True, "title": "cleanup of failed uploads",
             "assumptions": W_ASSUME + ["POSIX unlink/truncate semantics as modelled; write errors (disk full) are modelled, not induced"]},
-    "C14": {"suites": ["cli", "pair"], "monitor": True, "title": "bundled client and server interoperate",
+    "C14": {"suites": ["cli", "pair", "bin"], "monitor": True, "title": "bundled client and server interoperate",
             "assumptions": ["loopback delivers the windows used (window x block size <= 128 KiB); IPv4 loopback, in-process Client::run and Server"]},
     "C15": {"suites": ["wsend-long", "wrecv-long"], "monitor": True, "title": "block-number wrap-around", "assumptions": W_ASSUME},
-    "C16": {"suites": ["wsend", "wrecv", "cfg", "srv"], "monitor": True, "title": "duplicate-packets mode", "assumptions": W_ASSUME},
-    "C17": {"suites": ["cfg"], "monitor": True, "title": "command-line configuration",
+    "C16": {"suites": ["wsend", "wrecv", "cfg", "srv", "bin"], "monitor": True, "title": "duplicate-packets mode", "assumptions": W_ASSUME},
+    "C17": {"suites": ["cfg", "bin"], "monitor": True, "title": "command-line configuration",
             "assumptions": ["Path::exists and IpAddr::from_str are oracles: evaluated by the harness on every token and handed to the model",
                             "-h / --help exits the process and is not exercised in-process"]},
     "C18": {"suites": ["win"], "monitor": True, "title": "window buffer contract",
